@@ -492,8 +492,12 @@ class Report:
             self.known_hits[klass] += 1
             return False
         if len(self.violations) >= 20:
-            self.violations.append((None, what, found_input))
-            return True
+            # past the cap only the summary is kept -- except that a violation WITH a concrete failing input is
+            # still written out while fewer than 5 such replays exist (a flood of correspondence-only reports
+            # from early cases must not hide the failing input a later case provides)
+            if not (found_input and sum(1 for v in self.violations if v[0] and v[2]) < 5):
+                self.violations.append((None, what, found_input))
+                return True
         p = self.replay_path("violation")
         with open(p, "w") as f:
             json.dump(dict(property=self.prop, what=what, case=case, model=model, impl=impl,
